@@ -246,3 +246,72 @@ Proof.
   destruct (rd_head r4) as [[[maj3 e] r5]|c3|c3]; try reflexivity. cbn [glift gbind].
   destruct (ByteArrayMaxLen <? e)%N; [reflexivity|]. destruct (maj3 =? MajByteString)%N; reflexivity.
 Qed.
+
+(* ================================================================== *)
+(* phase 2: Message.GetAddrs (unknown protocol codes are skipped, any other parse error fails)
+   and httpsender.addIDToAddrs, against [get_addrs] / [add_id] of the model *)
+From Gen Require Import Gen_Funcs_httpsender.
+
+(* an address as the harness classifies it, carried to the parser in its first byte *)
+Definition encp (x : bytes * aclass) : list N :=
+  match snd x with AKnown => 0%N :: fst x | AUnknown => 1%N :: fst x | AInvalid => 2%N :: fst x end.
+Definition unknown_err : string := "no protocol with code 999".
+Definition go_new_maddr (b : list N) : list N * option string :=
+  match b with
+  | 0%N :: r => (r, None)
+  | 1%N :: _ => ([], Some unknown_err)
+  | _ => ([], Some "invalid multiaddr"%string)
+  end.
+Definition go_contains (hay needle : list N) : bool :=           (* strings.Contains on the two error texts that occur *)
+  Gen_Funcs_prelude.bytes_eqb hay (err_text (Some unknown_err)).
+
+Lemma getaddrs_loop : forall (K : list (list N) -> list (list N) * option string) (l : list (bytes * aclass)) (acc : list (list N)),
+  match get_addrs l with
+  | Ok r => message_Message_GetAddrs_loop_1 (list N) go_new_maddr go_contains K (map encp l) acc = K (acc ++ r)%list
+  | Err _ => exists e, message_Message_GetAddrs_loop_1 (list N) go_new_maddr go_contains K (map encp l) acc = ([], Some e)
+  | Panic _ => False
+  end.
+Proof.
+  intros K. induction l as [|[b c] r IH]; intros acc.
+  - cbn. rewrite app_nil_r. reflexivity.
+  - cbn [map message_Message_GetAddrs_loop_1 get_addrs]. destruct c; cbn [encp fst snd go_new_maddr isNone negb].
+    + specialize (IH (acc ++ [b])%list). unfold bytes in *. destruct (get_addrs r) as [x|e|p]; cbn [bind]; auto.
+      rewrite IH, <- app_assoc. reflexivity.
+    + replace (go_contains (err_text (Some unknown_err)) (bytes_of_string "no protocol with code")) with true by reflexivity.
+      apply IH.
+    + replace (go_contains (err_text (Some "invalid multiaddr"%string)) (bytes_of_string "no protocol with code")) with false by reflexivity.
+      eexists; reflexivity.
+Qed.
+
+Theorem tie_GetAddrs : forall l : list (bytes * aclass),
+  match get_addrs l, message_Message_GetAddrs (list N) go_new_maddr go_contains (map encp l) with
+  | Ok r, (r', None) => r' = r
+  | Err _, (_, Some _) => True
+  | _, _ => False
+  end.
+Proof.
+  intros. unfold message_Message_GetAddrs.
+  pose proof (getaddrs_loop (fun a => (a, None)) l []) as H.
+  destruct (get_addrs l) as [r|e|p].
+  - rewrite H. reflexivity.
+  - destruct H as [e' ->]. exact I.
+  - exact H.
+Qed.
+
+(* addIDToAddrs: nothing is touched for a message without addresses; otherwise the message's
+   addresses are replaced only after GetAddrs and AddrInfoToP2pAddrs both succeeded *)
+Theorem addIDToAddrs_table : forall (MSG MA AI : Type) (addrsOf : MSG -> list (list N)) (mkai : list N -> list MA -> AI)
+    (getaddrs : MSG -> list MA * option string) (msg : MSG) (p2perr : option string) (p2p : list MA) (pid : list N),
+  match httpsender_addIDToAddrs MSG MA AI addrsOf mkai getaddrs msg p2perr p2p pid with
+  | FReturn ret tr =>
+      existsb (String.eqb "msg.SetAddrs(p2pAddrs)") tr =
+        (negb (is_nil (addrsOf msg)) && isNone (snd (getaddrs msg)) && isNone p2perr)%bool /\
+      (is_nil (addrsOf msg) = true -> ret = "return nil"%string /\ tr = [])
+  | _ => False
+  end.
+Proof.
+  intros. unfold httpsender_addIDToAddrs. rewrite len_eqb_0.
+  destruct (addrsOf msg); cbn [is_nil negb andb]; [split; [reflexivity|intros _; split; reflexivity]|].
+  destruct (getaddrs msg) as [a [e|]]; cbn [snd isNone negb andb]; [split; [reflexivity|discriminate]|].
+  destruct p2perr; cbn; split; try reflexivity; discriminate.
+Qed.
